@@ -269,6 +269,15 @@ func generate(w *mon.W) {
 		for _, src := range c04.SkeletonSources() {
 			do(src)
 		}
+		// every operator keyword with every lexeme glued to it, at the end of the
+		// pipeline and before another operator
+		for _, kw := range []string{"where", "filter", "project", "extend", "summarize", "sort", "order", "take", "limit", "top", "count", "join", "as", "render"} {
+			for _, lx := range gen.Lexicon {
+				do("T | " + kw + lx)
+				do("T | " + kw + lx + " | count")
+				do("T | " + kw + " " + lx + " by")
+			}
+		}
 		// every sequence of binary operators, unparenthesized, at three depths
 		// (the parser's precedence loop is re-entered once per looser/tighter step)
 		{
